@@ -30,7 +30,6 @@
 //! panic monitor, difficulty formula over independently packed nonces, Proof serialisation round trip and
 //! padding refusal, variant selection by chain type / height / edge bits.
 
-use grin_core::consensus;
 use grin_core::core::hash::HashWriter;
 use grin_core::core::BlockHeader;
 use grin_core::global::{self, ChainTypes};
@@ -821,14 +820,6 @@ fn chain_from_name(s: &str) -> ChainTypes {
 		"UserTesting" => ChainTypes::UserTesting,
 		"Testnet" => ChainTypes::Testnet,
 		_ => ChainTypes::Mainnet,
-	}
-}
-
-fn chain_for_size(l: usize) -> ChainTypes {
-	if l == 8 {
-		ChainTypes::AutomatedTesting
-	} else {
-		ChainTypes::UserTesting
 	}
 }
 
@@ -1732,7 +1723,13 @@ fn main() {
 	let only = arg_value(&run.args, "--only");
 	let dev_variants = arg_value(&run.args, "--dev-variants");
 	let on = |name: &str| only.as_deref().map(|o| o.split(',').any(|x| x == name)).unwrap_or(true);
-	let scale = if san.is_some() { 0.1 } else { 1.0 };
+	// sanitizer runs: a tenth of quick (ASan), less for the slower tools
+	let scale = match san.as_deref() {
+		None => 1.0,
+		Some("valgrind") => 0.01,
+		Some("tsan") => 0.05,
+		Some(_) => 0.1,
+	};
 	// wall budget; `--budget-s N` overrides it (diagnostics on a loaded machine)
 	let budget_s = arg_value(&run.args, "--budget-s")
 		.and_then(|x| x.parse::<u64>().ok())
@@ -1865,8 +1862,48 @@ fn replay(shared: &Arc<Shared>, path: &std::path::Path) {
 	};
 	let case = v.get("case").cloned().unwrap_or(Value::Null);
 	let sig = v.get("signature").and_then(|x| x.as_str()).unwrap_or("").to_string();
+	if case.get("kind").and_then(|x| x.as_str()) == Some("selection") {
+		let g = |k: &str| case.get(k).and_then(|x| x.as_u64()).unwrap_or(0);
+		let nonces: Vec<u64> = case
+			.get("nonces")
+			.and_then(|x| x.as_array())
+			.map(|a| a.iter().map(|x| x.as_u64().unwrap_or(0)).collect())
+			.unwrap_or_default();
+		let slot = Arc::new(Slot {
+			busy_since: AtomicU64::new(0),
+			dead: AtomicBool::new(false),
+			info: Mutex::new(CaseInfo {
+				variant: Variant::Cuckatoo,
+				edge_bits: 0,
+				proof_size: 0,
+				chain: ChainTypes::Mainnet,
+				header: vec![],
+				hnonce: None,
+				nonces: vec![],
+				class: String::new(),
+			}),
+		});
+		let w = Worker {
+			shared: shared.clone(),
+			slot,
+		};
+		let mut st = Stats::default();
+		selection_case(
+			&w,
+			chain_from_name(case.get("chain").and_then(|x| x.as_str()).unwrap_or("Mainnet")),
+			g("height"),
+			g("edge_bits") as u8,
+			&unhex(case.get("header_hex").and_then(|x| x.as_str()).unwrap_or("")),
+			case.get("header_nonce").and_then(|x| x.as_u64()).map(|x| x as u32),
+			&nonces,
+			case.get("class").and_then(|x| x.as_str()).unwrap_or("replay"),
+			&mut st,
+		);
+		st.flush(run);
+		return;
+	}
 	if case.get("kind").and_then(|x| x.as_str()) != Some("verify") {
-		run.inconclusive("replay supports 'verify' cases only; re-run with the recorded seed and tier for the others");
+		run.inconclusive("replay supports 'verify' and 'selection' cases; re-run with the recorded seed and tier for the others (the replay file carries both)");
 		return;
 	}
 	let info = match CaseInfo::from_json(&case) {
@@ -1920,6 +1957,7 @@ fn finish(shared: &Arc<Shared>) -> ! {
 		 truncated and bad edge_bits refused, protocol versions 1-3. A case signature is (workload, variant, edge_bits, proof size, construction class, reference shape label with \
 		 degree profile, verdict); distinct_nontrivial counts distinct signatures. Every verify call runs under a hang monitor (3 s, reproduced in a fresh thread) and a panic monitor.",
 	);
+	run.set_exhaustive(false);
 	run.assume("blake2b (reached through core::hash::HashWriter) is trusted base for key derivation and proof hashing");
 	run.assume("graphs of 2^29 and more edges are only exercised with published solutions and random proofs (no solver at that size)");
 	let scale = shared.scale * shared.tier.pick(1.0, 3.0);
@@ -2464,6 +2502,9 @@ fn queue_solver(shared: &Arc<Shared>) {
 	let mut specs = vec![];
 	for &(l, ebs) in &[(42usize, &[16u8, 15, 14, 13, 12, 11, 10][..]), (8usize, &[16u8, 14, 12, 10, 9, 8][..])] {
 		for &eb in ebs {
+			if shared.scale < 0.05 && (eb > 12 || eb == 11 || eb == 9) {
+				continue; // valgrind / tsan runs: small graphs only
+			}
 			for v in VARIANTS {
 				specs.push((v, l, eb));
 			}
